@@ -191,6 +191,40 @@ pub fn record(prop: &str, rules_file: &str, out: &str, nwords: usize) {
                 }
             }
             if prop == "C06" {
+                // systematic stratum: the absent literal q at every position of small input templates (and, for insertion, context templates)
+                let in_templates: [&[&str]; 14] = [&["a"], &["a", "$"], &["$", "a"], &["a", "...", "t"], &["%=1", "1"], &["{%}"], &["{a, $}"], &["C=1", "V", "1"], &["a", "t"], &["%", "a"], &["<C V>"], &["V:[+long]"], &["[]=1", "1"], &["a", "%"]];
+                let ctx_templates: [(&[&str], &[&str]); 8] = [(&[], &["$"]), (&["$"], &[]), (&["a"], &[]), (&[], &["a"]), (&["%"], &[]), (&["a", "$"], &[]), (&[], &["$", "t"]), (&["#"], &["C"])];
+                let mut sweep: Vec<String> = Vec::new();
+                for tpl in in_templates.iter() {
+                    for pos in 0..=tpl.len() {
+                        let mut els: Vec<&str> = tpl.to_vec(); els.insert(pos, "q");
+                        let inp = els.join(" ");
+                        let outs = (0..els.len()).map(|_| "o").collect::<Vec<_>>().join(" ");
+                        sweep.push(format!("{inp} > {outs}")); sweep.push(format!("{inp} > o")); sweep.push(format!("{inp} > *")); sweep.push(format!("{inp} > &"));
+                        sweep.push(format!("{inp} > * / _#")); sweep.push(format!("{inp} > o / #_"));
+                    }
+                }
+                for (b, a) in ctx_templates.iter() {
+                    for side in 0..2 { let src = if side == 0 { b } else { a };
+                        for pos in 0..=src.len() {
+                            let mut els: Vec<&str> = src.to_vec(); els.insert(pos, "q");
+                            if els.first() == Some(&"q") && els.contains(&"#") && side == 0 { continue; }
+                            let (bs, as_) = if side == 0 { (els.join(" "), a.join(" ")) } else { (b.join(" "), els.join(" ")) };
+                            sweep.push(format!("* > e / {bs}_{as_}")); sweep.push(format!("* > $ / {bs}_{as_}")); sweep.push(format!("* > e t / {bs}_{as_}"));
+                        }
+                    }
+                }
+                for text in sweep {
+                    if v::parse_rules(&[RuleGroup::from_rules(vec![text.clone()])]).is_err() { sum.count("sweep_rules_rejected_by_parser", 1); continue; }
+                    for _ in 0..nwords {
+                        let wt = gen_word_text(&mut rng, true);
+                        let Ok(word) = v::parse_word(&wt, &al) else { continue };
+                        let o = run_rules(&[text.clone()], &word, 20_000, false);
+                        let after = o.steps.last().map(|s| s.word.clone()).unwrap_or(word.clone());
+                        sum.vectors += 1; sum.count(o.out, 1); sum.count("planted_position_sweep", 1);
+                        w.put(json!({"cls": "sweep", "out": o.out, "w": w_compact(&word, false), "a": w_compact(&after, false)}), json!({"rule": text, "word": wt, "outcome": o.out, "detail": o.detail, "after": v::render_word(&after, &al)}));
+                    }
+                }
                 // blank and comment-only lines
                 for text in ["", "   ", "\t", ";; a comment", "   ;; note > with / symbols _", ";;"] {
                     for _ in 0..(nwords * 10) {
